@@ -1,6 +1,7 @@
 (* C07 — TaskGroup.start(): readiness handshake is exact and loses nothing.
    This file contains only statements closed by `exact` and their Print Assumptions. *)
-From AV Require Import Base Machine GroupInv GroupInv2 GroupThmsPure GroupThms GroupThms6 GroupThms7 GroupThms8 GroupThms10 GroupThms11.
+From AV Require Import Base Machine GroupInv GroupInv2 GroupThmsPure GroupThms GroupThms6 GroupThms7 GroupThms8 GroupThms10 GroupThms11 GroupThms13 GroupThms14.
+From AV Require TreeStep.
 
 Theorem C07_start_returns_started_value : forall s t g c f h v, reach s -> k_ctl (tasks s t) = CStartWait g c f ->
   (h = HStep t \/ exists f', h = HWake t f') -> snd (step s (ARun h)) = RRet v ->
@@ -105,3 +106,42 @@ Theorem C07_start_join_event_wakeup : forall s o t ch sc e f v, reach s ->
   exists x, o = AFinish ch x /\ idle s ch = true /\ v = 1.
 Proof. exact start_join_event_wakeup. Qed.
 Print Assumptions C07_start_join_event_wakeup.
+
+(* "start() re-raises only after the child's coroutine ended" (AnyIO cancellation).  A caller t of start() that is
+   interrupted while waiting for started() begins to join the child ch in the fresh, shielded, private scope
+   sc = nscope s.  The prefix of the run lies in the op_ok domain of the C03/C05 development (TreeStep.reach_ok:
+   scope ids allocated, no exit of a foreign scope, ...); the continuation ops is arbitrary except for the
+   operations excluded by the boolean predicate quietb t sc (native Task.cancel() on the caller; cancel,
+   un-shielding or deadline of sc itself; the delivery callback of sc itself; the resumption of the caller, which
+   ends the join).  Then no cancellation reaches the caller (its task record is unchanged), its join future is
+   pending or holds the value set by the child's finished event, and the only handle that resumes the caller is
+   that wake-up: the caller is resumed, and start() re-raises, only after the child's coroutine ended. *)
+Theorem C07_start_join_resumed_only_by_finished_event : forall s t g ch f h ops,
+  TreeStep.reach_ok s -> TreeStep.op_ok s (ARun h) = true ->
+  k_ctl (tasks s t) = CStartWait g ch f -> In h (ready s) -> (h = HStep t \/ exists f', h = HWake t f') ->
+  snd (step s (ARun h)) = RBlocked ->
+  let s0 := fst (step s (ARun h)) in
+  let sc := nscope s in
+  exists e wf, k_ctl (tasks s0 t) = CStartJoin ch sc e wf /\
+    (wf = None -> k_final (tasks s0 ch) <> None) /\
+    forall fj, wf = Some fj -> forallb (quietb t sc) ops = true ->
+      let s1 := final step s0 ops in
+      tasks s1 t = tasks s0 t /\
+      (f_st (futs s1 fj) = FPend \/ exists v, f_st (futs s1 fj) = FRes v) /\
+      (forall v, f_st (futs s1 fj) = FRes v ->
+         e_set (events s1 (k_hevent (tasks s1 ch))) = true /\ k_final (tasks s1 ch) <> None) /\
+      (forall h', In h' (ready s1) -> (h' = HStep t \/ exists f', h' = HWake t f') ->
+         h' = HWake t fj /\ (exists v, f_st (futs s1 fj) = FRes v) /\ k_final (tasks s1 ch) <> None).
+Proof. exact start_join_resumed_only_by_finished_event. Qed.
+Print Assumptions C07_start_join_resumed_only_by_finished_event.
+
+(* the one-step form, for EVERY op sequence: while the join predicate JP holds (the caller tj is a member of its
+   private scope scj only; scj is shielded, active, not cancelled, without deadline, hosted by tj; tj waits on fj
+   alone; scj is no handle scope and no group scope), a step other than the excluded ones keeps JP and the
+   caller's task record, and changes the join future at most by giving it a value *)
+Theorem C07_start_join_step : forall tj fj scj ch ej s o, reach s -> jok tj scj o -> JP tj fj scj ch ej s ->
+  JP tj fj scj ch ej (fst (step s o)) /\
+  (tasks (fst (step s o)) tj = tasks s tj /\
+   (f_st (futs (fst (step s o)) fj) = f_st (futs s fj) \/ exists v, f_st (futs (fst (step s o)) fj) = FRes v)).
+Proof. exact step_jr. Qed.
+Print Assumptions C07_start_join_step.
